@@ -93,13 +93,17 @@ claimed = {
    design="DESIGN.md §11 C01"),
  "C09": dict(
    text="Proof, for the sequential mechanism of the in-flight table (any sequence of handler operations one after another, by induction over a representation invariant): the pool is created holding exactly 1..N once each; every accepted request carries an id in 1..N (automatic assignment) or its caller-chosen id, which no unanswered request carries, and that id leaves the pool while nothing else changes; a send when the pool is empty and a send reusing the id of an unanswered request are refused; a refused send leaves table and pool unchanged - this obligation failed on the original tree (the id borrowed before the refusal leaked: N=1, explicit send 1, managed send refused, answer 1, managed send -> 'no stream id available' for ever) and is fixed; the final frame of a response frees the entry and returns an automatically assigned id to the pool, non-final pages and unknown ids change nothing.",
-   note="SEQUENTIAL ONLY: interleavings of concurrent senders and the responder, the RW lock, timeouts and close() are not decided (go statements ignored, locks and atomics sequential); the buffered channel is modelled as a bounded multiset (FIFO abstracted); the per-request object (its goroutine, timer and frame channel) is used through assumed contracts; release-cannot-fail after the final frame needs a cardinality argument that is not under proof.",
+   note="SEQUENTIAL ONLY: interleavings of concurrent senders and the responder, the RW lock, timeouts and close() are not decided (go statements ignored, locks and atomics sequential); the buffered channel is modelled as a bounded multiset (FIFO abstracted); the per-request object is used through its contracts, proved under C10; release-cannot-fail after the final frame needs a cardinality argument that is not under proof.",
    technique="contract-based deductive verification: representation invariant over a sequential multiset model of the buffered channel, quantified frame clauses over all ids, loop invariant for the filling loop",
    design="DESIGN.md §11 C09"),
+ "C10": dict(
+   text="Proof, for the sequential mechanism of response correlation (any sequence of handler operations one after another, by induction over the invariants poolInv, tableInv, chansDistinct, reqInv): the request handed to a sender is the one registered under the frame's stream id and is a fresh object with its own fresh, empty, open channel; an incoming frame is queued exactly once, on the channel of the request registered under the frame's stream id (whose streamId field equals that id), and the frame condition shows that no other request, channel or table entry changes; a frame with an unknown id is refused and changes nothing; the last frame of a response (every frame except a continuous-paging Rows page not flagged last - isLastFrame proved against that statement) completes the request (done, channel closed, no error), any other page leaves it registered and open; a refused delivery queues nothing; EVENT frames go to the event channel (once, if there is room) and touch no request, request channel or table entry, every other frame goes to the in-flight handler and never to the event channel.",
+   note="SEQUENTIAL MECHANISM ONLY: interleavings of concurrent senders with the receive loop, locks, timer goroutines and close() racing with delivery are not decided (go statements ignored, sync primitives no-ops); channels of frames are bounded multisets of frame references, FIFO order ('arrival order') is Go's channel semantics, trusted; ASSUMED: event handlers (user callbacks) leave the connection's table and channels alone, context.CancelFunc affects only its context, ctx.Done() is never sent on, frames are well formed as the decoder produces them, the receive path calls processIncomingFrame with the invariants in force (call site not verified). Send/Receive wrappers, handler close() and timeouts are not covered.",
+   technique="contract-based deductive verification: representation invariants over a sequential multiset model of channels of frame references, quantified frame (assigns) clauses, postconditions per operation",
+   design="DESIGN.md §11 C10"),
 }
 
 not_applicable = {
- "C10": "delivery of each response to exactly the request with the same stream id runs through per-request goroutines, timers and channels of frames (client/inflight.go onFrameReceived, client/client.go receive loop): a whole-history property over goroutine schedules; the sequential channel model covers only channels of scalar elements, and no per-call contract states 'delivered exactly once to that request' without a ghost history of deliveries that was not built (DESIGN.md §11)",
  "C16": "quantifies over crash points and schedules of goroutines, timers and sockets; no pre/postcondition or data-structure invariant over one call expresses it (DESIGN.md §4 C16)",
 }
 pending_reason = "contracts for this property are not yet under machine check in this commit; not claimed until its obligations discharge (DESIGN.md §8 order of work)"
